@@ -10,6 +10,7 @@ using namespace hc;
 using vt::Ev;
 
 static const int NS = 10, NB = 4;
+static void do_deser(vt::Rng& g, int b);
 struct Group { std::vector<Item> items; long version = 0; };
 struct Obj { std::unique_ptr<hll_sketch> s; int grp = -1; bool restored = false; };
 struct Blob { bool live = false; std::vector<uint8_t> bytes; bool compact = false; int grp = -1; long version = 0; std::vector<Item> items; };
@@ -106,6 +107,62 @@ static void do_deser(vt::Rng& g, int b) {
   g_budget--;
 }
 
+// serialize sketch src into a blob: compact (with header sizes) or updatable, bytes and stream
+static int do_ser(vt::Rng& g, int src, int force_compact) {
+  int b = (int)g.below(NB);
+  hll_sketch& s = *obj[src].s;
+  bool compact = force_compact < 0 ? g.chance(55) : force_compact != 0;
+  static const unsigned HS[] = {0, 0, 1, 7, 8, 13, 64};
+  unsigned hdr = compact ? HS[g.below(7)] : 0;
+  auto bytes = compact ? s.serialize_compact(hdr) : s.serialize_updatable();
+  auto bytes0 = compact ? s.serialize_compact() : s.serialize_updatable();
+  std::ostringstream os; if (compact) s.serialize_compact(os); else s.serialize_updatable(os);
+  std::string st = os.str();
+  Blob& bl = blob[b];
+  bl.live = true; bl.compact = compact; bl.bytes.assign(bytes.begin() + hdr, bytes.end());
+  bl.grp = obj[src].grp; bl.version = groups[bl.grp].version; bl.items = groups[bl.grp].items;
+  View v = view(s, false);
+  long long mx = v.type == 4 ? -1 : (long long)hll_sketch::get_max_updatable_serialization_bytes((uint8_t)v.lgk, tt(v.type));
+  auto cn = canon(bl.bytes);
+  Ev e("Ser");
+  e.i("src", src).i("blob", b).str("form", compact ? "compact" : "updatable").i("hdr", hdr).i("total", (long long)bytes.size())
+   .i("size", (long long)bl.bytes.size())
+   .i("advertised", (long long)(compact ? s.get_compact_serialization_bytes() : s.get_updatable_serialization_bytes()))
+   .i("maxsize", mx)
+   .bytes("img", bl.bytes.data(), bl.bytes.size()).bytes("img0", bytes0.data(), bytes0.size()).bytes("simg", st.data(), st.size())
+   .bytes("canon", cn.data(), cn.size()).raw("p", light(src, s));
+  if (obj[src].restored) e.b("restored", true);
+  e.emit(); g_budget--;
+  return b;
+}
+
+// Uniform fill (lg_k <= 7): exactly one mined item per slot, all with the same value v in 1..3, in random order, to the whole base
+// group (promoted HLL_4/6/8 and start_full_size sketches).  At the moment the last slot is filled every slot holds v: HLL_4 has
+// cur-min v and numAtCurMin k, i.e. the counters look like those of an untouched array.  Observations (is_empty on every update,
+// Obs, serialize + deserialize of the HLL_4 sketches) are taken with all slots but two / one filled and exactly at that moment;
+// optionally one slot is far ahead (aux exception) while the rest sits at cur-min.  Returns false if the pool lacks a slot.
+static bool uniform_fill(vt::Rng& g, const Mined& mined, const Pool& pool, int g0, int lgk) {
+  uint32_t v = (uint32_t)g.range(1, 3);
+  auto idx = mined.by_slot(lgk, v);
+  for (auto& c : idx) if (c.empty()) return false;
+  size_t k = idx.size();
+  std::vector<size_t> order(k);
+  for (size_t i = 0; i < k; i++) order[i] = i;
+  for (size_t a = k; a > 1; a--) std::swap(order[a - 1], order[g.below(a)]);
+  auto ids = members(g0);
+  auto feed1 = [&](const Item& it) { groups[g0].items.push_back(it); groups[g0].version++; emit_update(ids, it); };
+  int ahead_at = g.chance(40) ? (int)g.below(k) : -1;     // position at which one high-value item (value >= 15) is offered
+  for (size_t n = 0; n < k; n++) {
+    if ((int)n == ahead_at) feed1(pool.pick(g, (uint32_t)g.range(15, 18)));
+    feed1(mined.item(idx[order[n]][g.below(idx[order[n]].size())], g));
+    if (n + 3 >= k) emit_obs(ids);                                                  // all but two, all but one, all slots at v
+  }
+  // exactly now: round trips of the HLL_4 sketches (the image carries the EMPTY flag of is_empty()), restored copies join the group
+  for (int id : ids) if (obj[id].s->get_target_type() == HLL_4 && !obj[id].restored) { int b = do_ser(g, id, (int)g.below(2)); do_deser(g, b); }
+  emit_obs(members(g0));
+  return true;
+}
+
 // Plant mined groups (hll_common.hpp Mined) into the base lock-step group, with an observation on both sides:
 //   a pair of DISTINCT coupons with the same 26-bit address (larger value first or last), a pair of distinct items with the
 //   identical coupon, a same-slot group with different addresses (equal and different values), and high-value steering items
@@ -167,6 +224,7 @@ int main(int argc, char** argv) {
     bool high = hihi >= hilo && hilo > 16 && seg == segments - 1;
     int serde_pct = high ? 0 : serde_arg;
     if (high) lgk = (uint8_t)g.range(hilo, hihi);
+    else if (seg == 1) lgk = (uint8_t)g.range(std::max(4L, minlgk), std::max(minlgk, std::min(maxlgk, 7L)));
     long k = 1L << lgk;
     g_budget = high ? 260 : events + (lgk <= 6 ? 0 : (long)g.range(0, events / 2));
     long wide = std::max(64L, (long)(g_budget * (g.chance(30) ? 0.2 : 2.0)));   // narrow ranges give duplicate-heavy streams
@@ -184,6 +242,11 @@ int main(int argc, char** argv) {
       auto ta = mined.top_addr();
       for (int n = 0; n < 8 && !ta.empty(); n++) { Item it = mined.item(ta[g.below(ta.size())], g); groups[g0].items.push_back(it); groups[g0].version++; emit_update(members(g0), it); }
       emit_obs(members(g0));
+    }
+    // uniform fill first (small lg_k): always in segment 1 of a file, otherwise in 40 % of the small segments
+    if (!high && lgk <= 7 && (seg == 1 || g.chance(40))) {
+      if (t3 != 4 && !obj[4].s) { obj[4].s.reset(new hll_sketch(lgk, HLL_4, true)); obj[4].grp = g0; emit_new(4); }   // a start_full_size HLL_4 in any case
+      uniform_fill(g, mined, pool, g0, lgk);
     }
     unsigned planted = 0;      // phases of obj[0] in which the mined groups were planted already
     int late_at = (int)(g_budget / 3);
@@ -270,31 +333,7 @@ int main(int argc, char** argv) {
         ids.push_back(dst);
         emit_obs(ids);
       } else if (op < 100 - serde_pct) {
-        // serialize: compact (with header sizes) or updatable, bytes and stream
-        int src = pick_live(g), b = (int)g.below(NB);
-        hll_sketch& s = *obj[src].s;
-        bool compact = g.chance(55);
-        static const unsigned HS[] = {0, 0, 1, 7, 8, 13, 64};
-        unsigned hdr = compact ? HS[g.below(7)] : 0;
-        auto bytes = compact ? s.serialize_compact(hdr) : s.serialize_updatable();
-        auto bytes0 = compact ? s.serialize_compact() : s.serialize_updatable();
-        std::ostringstream os; if (compact) s.serialize_compact(os); else s.serialize_updatable(os);
-        std::string st = os.str();
-        Blob& bl = blob[b];
-        bl.live = true; bl.compact = compact; bl.bytes.assign(bytes.begin() + hdr, bytes.end());
-        bl.grp = obj[src].grp; bl.version = groups[bl.grp].version; bl.items = groups[bl.grp].items;
-        View v = view(s, false);
-        long long mx = v.type == 4 ? -1 : (long long)hll_sketch::get_max_updatable_serialization_bytes((uint8_t)v.lgk, tt(v.type));
-        auto cn = canon(bl.bytes);
-        Ev e("Ser");
-        e.i("src", src).i("blob", b).str("form", compact ? "compact" : "updatable").i("hdr", hdr).i("total", (long long)bytes.size())
-         .i("size", (long long)bl.bytes.size())
-         .i("advertised", (long long)(compact ? s.get_compact_serialization_bytes() : s.get_updatable_serialization_bytes()))
-         .i("maxsize", mx)
-         .bytes("img", bl.bytes.data(), bl.bytes.size()).bytes("img0", bytes0.data(), bytes0.size()).bytes("simg", st.data(), st.size())
-         .bytes("canon", cn.data(), cn.size()).raw("p", light(src, s));
-        if (obj[src].restored) e.b("restored", true);
-        e.emit(); g_budget--;
+        int b = do_ser(g, pick_live(g), -1);
         if (g.chance(75)) do_deser(g, b);
       } else {
         do_deser(g, -1);
